@@ -403,7 +403,7 @@ NUMBA_THEOREMS = {'nb_add_eq', 'nb_sub_eq', 'nb_mul_eq', 'nb_xor_eq', 'nb_or_eq'
 
 SERIES_THEOREMS = {'series_sin_eq', 'series_sinh_eq', 'series_cos_eq', 'series_cosh_eq', 'series_exp_eq'}
 
-PARSER_THEOREMS = {'parser_step_eq'}
+PARSER_THEOREMS = {'parser_step_eq', 'parser_lexicon_eq', 'parser_line_offset_eq'}
 
 PRINTER_THEOREMS = {'printer_str_eq'}
 
